@@ -50,6 +50,11 @@ inline tainted<T_Lhs, T_Sbx> sandbox_reinterpret_cast(
   static_assert(detail::rlbox_is_wrapper_v<T_Wrap<T_Rhs, T_Sbx>> &&
                   std::is_pointer_v<T_Lhs> && std::is_pointer_v<T_Rhs>,
                 "sandbox_reinterpret_cast on incompatible types");
+  static_assert(
+    std::is_function_v<std::remove_pointer_t<T_Lhs>> ==
+      std::is_function_v<std::remove_pointer_t<T_Rhs>>,
+    "sandbox_reinterpret_cast cannot convert between function pointers and "
+    "data pointers, as they have different representations in the sandbox");
 
   tainted<T_Rhs, T_Sbx> taintedVal = rhs;
   auto raw = reinterpret_cast<T_Lhs>(taintedVal.INTERNAL_unverified_safe());
